@@ -21,6 +21,14 @@ Parts (all deterministic; VERIF_SEED only moves the strides/offsets of the quick
   decode   every status/type code of each gateway's report format x payload values -> what the driver
            reports (backward frame value / no answer / framing error / forward frame) == reference decoder;
            LUBA / SCI: every code once more behind a packet with a damaged checksum
+  decode-hist  LUBA / SCI: every status/type code once more, decoded by a CONNECTED driver (connect(), send() on the
+           harness's virtual-time loop, harness.gateways_serial) in whose receiver left-over packets of an earlier
+           exchange sit when send() starts - extra status / 'DALI NO' / error reports, stale backward frames, observed
+           frames, bus errors, device info - after no / an unanswered / an answered earlier exchange; the gateway's
+           confirmation and answer arrive with latencies inside the protocol's windows: the command still gets its own
+           confirmation and answer
+  observe-seq  Tridonic HID watcher: a command that needs a repeat / an answer directly followed by other forward
+           frames (no timer involved): every forward frame is reported, a properly repeated configuration command once
   unipi-bus  the UniPi driver on every channel of the unit (constructor option bus=0..3) against a register-level
            model of the gateway: register numbers written (send pair) and read (receive triple, framing-error
            counter) == ref_wire.UNIPI_REGS, and the answer that comes back through them; the 16-bit receive and
@@ -37,7 +45,8 @@ ID = "C18"
 LEVEL = "exploration"
 RULE = ("one case = (driver, frame bits, frame value, device type) for encode/length, (driver, start) for seq, "
         "(driver, start, word over the driver's packet-producing operations) for seqmix, "
-        "(driver, type/status code, payload[, damaged packet in front]) for decode, (UniPi channel, frame, scripted "
+        "(driver, type/status code, payload[, damaged packet in front]) for decode, (driver, code, payload, earlier "
+        "exchange, left-over packets, latencies) for decode-hist, (packet sequence) for observe-seq, (UniPi channel, frame, scripted "
         "answer) for unipi-bus; distinct by construction (enumeration); non-trivial = the "
         "driver accepted the command and its bytes were compared, or a gateway report was decoded and compared, or a "
         "refusal was required (lengths the gateway cannot carry)")
@@ -71,6 +80,15 @@ ASSUMPTIONS = list(RW.ASSUMPTIONS) + [
     "it); only range and 'no immediate repetition' are judged, as the statement says, not the step; the legacy Tridonic "
     "sync/async drivers are created without their constructors (which only look for the USB device) and given a recording "
     "backend",
+    "decode-hist: left-over packets are read while nobody sends; a LUBA 'frame sent' event is never left over (the LUBA "
+    "driver's public send path discards stale backward frames only - what an orphaned transmit confirmation does to "
+    "the next command is the conversation's business, C15-C17); the SCI confirmation arrives 14..40 ms after the write "
+    "(the frame's time on the bus, below the 100 ms confirmation timeout), the answer 0.5..27 ms after the confirmation "
+    "(SCI, window 30 ms) / 13..22 ms after the 'sent' event (LUBA, window 25 ms); the drivers' own answer windows are "
+    "in force for these cases, on a clock that only the harness advances",
+    "observe-seq: reads happen one per loop iteration (the watcher task runs between two reads, as under asyncio); which "
+    "frames are configuration commands / queries is the library's own classification (sendtwice / response), as in "
+    "the encode part",
     "the conversation needed to complete a send (echo reports, transmit confirmations, status frames) is played as "
     "the driver expects it; C18 judges formats, not the conversation (C15-C17)",
 ]
@@ -112,6 +130,7 @@ def _env():
     fos = FakeOS()
     H.os = fos
     H.random = FakeRandom()
+    _ENV["timeout_rx"] = {"luba": S.DriverLubaRs232.timeout_rx, "sci": S.DriverSCIRS232.timeout_rx}
     S.DriverLubaRs232.timeout_rx = 0.002
     S.DriverSCIRS232.timeout_rx = 0.002
     A.time = FakeTime()
@@ -1303,10 +1322,171 @@ def case_observe(case):
     return []
 
 
+# ------------------------------------------------------------- decode histories ----
+# LUBA / SCI: the report under test is decoded by a driver that has been used before and whose receiver still holds
+# left-over packets of an earlier exchange when the next send() starts.  The whole driver (connect(), send()) runs on
+# the harness's virtual-time loop against harness.gateways_serial; the gateway's packets arrive with latencies inside
+# the protocol's windows (confirmation after the frame's time on the bus, answer inside the driver's answer window).
+def leftovers(driver):
+    """Well-formed packets that may be left over from an earlier exchange, by name."""
+    if driver == "sci":
+        f = RW.sci_frame
+        out = [("status-ok", f(0x00, 0, 0, 0)), ("status-dali-no", f(0x01, 0, 0, 0)), ("status-ok-id9", f(0x90, 0, 0, 0)),
+               ("status-dali-no-id3", f(0x31, 0, 0, 0)), ("stale-backward", f(0x02, 0, 0, 0xEE)),
+               ("two-status", f(0x00, 0, 0, 0) + f(0x01, 0, 0, 0)),
+               ("status+stale-backward", f(0x31, 0, 0, 0) + f(0x32, 0, 0, 0xEE)),
+               ("observed-forward", f(0x03, 0, 0xFF, 0x00)), ("unsupported-kind", f(0x05, 1, 2, 3))]
+        out += [("error-%d" % e, f(0x07, 0, 0, e)) for e in (1, 2, 3, 4, 5)]
+        return out
+    ev = RW.luba_event
+    return [("stale-backward", RW.luba_event_received([0xEE])), ("two-stale-backward", RW.luba_event_received([0xEE]) * 2),
+            ("bus-error", ev((2 << 6) | 63, [])), ("tx-response", RW.luba_frame(0x33, [9, 0])),
+            ("observed-forward", RW.luba_event_received([0xFF, 0x00])),
+            ("settings", RW.luba_frame(0x2B, [0, 0x12, 0])), ("device-info", RW.luba_frame(0x21, list(range(1, 21)))),
+            ("bus-error+stale-backward", ev((2 << 6) | 62, []) + RW.luba_event_received([0xEE])),
+            ("event-type-1", ev(0x40, []))]
+
+
+EARLIER = ("none", "command", "query-answered", "query-unanswered")
+
+
+def case_decode_hist(case):
+    env = _env()
+    driver = case["driver"]
+    from harness import gateways_serial as GS
+    S = env["S"]
+    gg = env["gg"]
+    cmd = _query()
+    fb = list(cmd.frame.as_byte_sequence)
+    left = dict(leftovers(driver))[case["left"]]
+    if driver == "luba":
+        status, data = case["code"], case["payload"]
+        et = status >> 6
+        under = RW.luba_event(status, ([7] + fb) if et == 0 else data)
+        ref = RW.luba_event_decode(list(under[3:-1]))
+        script = [(RW.luba_frame(0x33, [7, 0]), "ack")] + \
+                 ([] if et == 0 else [(RW.luba_event_sent(7, fb), "tx")]) + [(under, "tx" if et == 0 else "answer")]
+        cls, base = S.DriverLubaRs232, GS.LubaGateway
+        where = "luba event status %#x data %r" % (status, data)
+    else:
+        b0, d3 = case["code"], case["payload"]
+        under = RW.sci_frame(b0, *d3)
+        ref = RW.sci_decode(under)
+        script = [(RW.sci_frame(0x00, 0, 0, 0), "tx"), (under, "sci-answer")]
+        cls, base = S.DriverSCIRS232, GS.SciGateway
+        where = "sci frame %s" % under.hex()
+    where += " (decoded by a connected driver; earlier exchange: %s; packet(s) %s [%s] left over in the receiver when " \
+             "send() starts; latencies %r)" % (case["earlier"], case["left"], left.hex(), case["lat"])
+
+    class Gateway(base):
+        script = None
+
+        def scripted(self):
+            for chunk, lat in self.script:
+                self.emit(chunk, lat)
+            self.script = None
+
+        def handle(self, *a):
+            if self.script is None:
+                return base.handle(self, *a)
+            if driver == "luba" and a[0] != 0x32:
+                return base.handle(self, *a)
+            self.scripted()
+
+    saved = cls.timeout_rx
+    cls.timeout_rx = env["timeout_rx"][driver]
+    sim = GS.SerialSim(driver)
+    try:
+        sim.gw = Gateway(sim)
+        if not sim.connect():
+            return [("C18:%s:decode:connect-failed" % driver, "connect() against the gateway model did not complete")]
+        # an earlier exchange, completed
+        earlier = {"none": None, "command": gg.Off(2), "query-answered": gg.QueryStatus(2),
+                   "query-unanswered": gg.QueryStatus(3)}[case["earlier"]]
+        if earlier is not None:
+            sim.expect(earlier, ("value", 0x04) if case["earlier"] == "query-answered" else ("silent",))
+            t0 = sim.start(sim.driver.send(earlier))
+            sim.drain()
+            if not t0.done() or t0.exception() is not None:
+                return [("C18:%s:decode:earlier-exchange-failed" % driver, "%s: send(%s) did not complete: %r"
+                         % (where, earlier, t0.exception() if t0.done() else "pending"))]
+        # what is left over arrives and is read; nobody is sending
+        sim.inject(left)
+        sim.run_until(sim.loop.time() + 0.2)
+        child = sim.driver.new_dali_rx_queue()
+        sim.latencies = [x / 8.0 for x in case["lat"]]
+        sim.gw.script = script
+        sim.tasks = []
+        t = sim.start(sim.driver.send(cmd))
+        sim.drain()
+        if not t.done():
+            out = ("hang", None)
+        elif t.exception() is not None:
+            if library_frame(t.exception().__traceback__) is None:
+                raise t.exception()
+            out = ("raised", t.exception())
+        else:
+            out = ("ok", t.result())
+        sim.run_until(sim.loop.time() + 0.2)
+        seen = []
+        while child.qsize():
+            c = child.get_nowait()
+            seen.append((len(c.frame), c.frame.as_integer))
+    finally:
+        cls.timeout_rx = saved
+        sim.close()
+    if ref["kind"] in ("sent",):
+        ref = {"kind": "none"}
+    vs = judge_decode(driver, ref, norm_response(out), where, forward_seen=seen)
+    return [(sig.replace(":decode:", ":decode-after-leftovers:"), msg) for sig, msg in vs]
+
+
+def case_observe_seq(case):
+    """Tridonic HID: several observed packets one directly after the other; every forward frame among them reaches the
+    bus_traffic callback with its bits intact - also the one that tells the watcher that the previous command got no
+    repeat / no answer."""
+    env = _env()
+    H = env["H"]
+    H.random.start = 1
+    d = H.tridonic("/dev/verif-tridonic-watch")
+    seen = []
+    d.bus_traffic.register(lambda dev, c, resp, err: seen.append((len(c.frame), c.frame.as_integer)))
+    pkts = []
+    for p in case["packets"]:
+        if p[0] == "backward":
+            pkts.append(RW.tridonic_report(0x11, 0x72, p[1], seq=0))
+        else:
+            pkts.append(RW.tridonic_report(0x11, {16: 0x73, 24: 0x76}[p[0]], p[1], seq=0))
+
+    async def go():
+        t = asyncio.ensure_future(d._bus_watch())
+        await asyncio.sleep(0)
+        for pkt in pkts:
+            d._handle_read(pkt)          # one read per loop iteration, the watcher runs in between (as in asyncio)
+            for _ in range(3):
+                await asyncio.sleep(0)
+        for _ in range(8):
+            await asyncio.sleep(0)
+        t.cancel()
+        try:
+            await t
+        except asyncio.CancelledError:
+            pass
+    out = _run(go())
+    how = "observed packets %r one after the other" % (case["packets"],)
+    if out[0] != "ok":
+        return [("C18:tridonic-hid:decode:bus-watch-%s" % out[0], "%s: %r" % (how, out[1]))]
+    if seen != [tuple(x) for x in case["expect"]]:
+        return [("C18:tridonic-hid:decode:forward-frame-sequence",
+                 "%s: bus_traffic callback got %r, the packets denote the commands %r" % (how, seen, case["expect"]))]
+    return []
+
+
 def run_case(case):
     kind = case["kind"]
     return {"encode": case_encode, "length": case_length, "seq": case_seq, "decode": case_decode,
-            "observe": case_observe, "unipi-bus": case_unipi_bus, "seqmix": case_seqmix}[kind](case)
+            "observe": case_observe, "unipi-bus": case_unipi_bus, "seqmix": case_seqmix,
+            "decode-hist": case_decode_hist, "observe-seq": case_observe_seq}[kind](case)
 
 
 # ------------------------------------------------------------------------ shards ----
@@ -1359,6 +1539,42 @@ def _enc_shard(arg):
     return res
 
 
+def _decode_codes(driver, res, sparse=False):
+    """Every status/type code of the LUBA / SCI report formats x payload values."""
+    cases = []
+    if driver == "luba":
+        for status in range(256):
+            et, info = status >> 6, status & 63
+            if et == 2 and info == 8:
+                for v in range(256):
+                    cases.append({"kind": "decode", "driver": "luba", "code": status, "payload": [v]})
+            elif et == 2 and info in (16, 24):
+                for fb in ([[0xFF, 0x00], [0x02, 0x80]] if info == 16 else [[0xFF, 0xFE, 0x00], [0xC1, 0x30, 0x07]]):
+                    cases.append({"kind": "decode", "driver": "luba", "code": status, "payload": fb})
+            elif et == 2 and 1 <= info <= 32:
+                res.excluded["luba received-event with a bit count other than 8/16/24: not judged"] += 1
+            else:
+                cases.append({"kind": "decode", "driver": "luba", "code": status, "payload": [] if et != 2 else [0x55][:info % 2]})
+    else:
+        for b0 in range(256):
+            code = b0 & 15
+            if code == 2:
+                for v in (range(256) if b0 >> 4 in (0, 9) else (0, 0x5A, 0xFF)):
+                    cases.append({"kind": "decode", "driver": "sci", "code": b0, "payload": [0, 0, v]})
+            elif code == 3:
+                cases.append({"kind": "decode", "driver": "sci", "code": b0, "payload": [0, 0xFF, 0x00]})
+                cases.append({"kind": "decode", "driver": "sci", "code": b0, "payload": [0, 0x02, 0x80]})
+            elif code == 8:
+                cases.append({"kind": "decode", "driver": "sci", "code": b0, "payload": [0xFF, 0xFE, 0x00]})
+            elif code == 7:
+                for e in (0, 1, 2, 3, 4, 5, 6, 0xFF):
+                    cases.append({"kind": "decode", "driver": "sci", "code": b0, "payload": [0, 0, e]})
+            else:
+                cases.append({"kind": "decode", "driver": "sci", "code": b0, "payload": [0, 0, 0]})
+                cases.append({"kind": "decode", "driver": "sci", "code": b0, "payload": [1, 2, 3]})
+    return cases
+
+
 def _misc_shard(arg):
     part, seed, quick = arg
     res = Result()
@@ -1403,35 +1619,9 @@ def _misc_shard(arg):
                         cases.append({"kind": "decode", "driver": "legacy-hasseb", "cmdcode": cmdcode, "code": code,
                                       "len": ln, "payload": p})
     elif part == "decode-luba":
-        for status in range(256):
-            et, info = status >> 6, status & 63
-            if et == 2 and info == 8:
-                for v in range(256):
-                    cases.append({"kind": "decode", "driver": "luba", "code": status, "payload": [v]})
-            elif et == 2 and info in (16, 24):
-                for fb in ([[0xFF, 0x00], [0x02, 0x80]] if info == 16 else [[0xFF, 0xFE, 0x00], [0xC1, 0x30, 0x07]]):
-                    cases.append({"kind": "decode", "driver": "luba", "code": status, "payload": fb})
-            elif et == 2 and 1 <= info <= 32:
-                res.excluded["luba received-event with a bit count other than 8/16/24: not judged"] += 1
-            else:
-                cases.append({"kind": "decode", "driver": "luba", "code": status, "payload": [] if et != 2 else [0x55][:info % 2]})
+        cases = _decode_codes("luba", res)
     elif part == "decode-sci":
-        for b0 in range(256):
-            code = b0 & 15
-            if code == 2:
-                for v in (range(256) if b0 >> 4 in (0, 9) else (0, 0x5A, 0xFF)):
-                    cases.append({"kind": "decode", "driver": "sci", "code": b0, "payload": [0, 0, v]})
-            elif code == 3:
-                cases.append({"kind": "decode", "driver": "sci", "code": b0, "payload": [0, 0xFF, 0x00]})
-                cases.append({"kind": "decode", "driver": "sci", "code": b0, "payload": [0, 0x02, 0x80]})
-            elif code == 8:
-                cases.append({"kind": "decode", "driver": "sci", "code": b0, "payload": [0xFF, 0xFE, 0x00]})
-            elif code == 7:
-                for e in (0, 1, 2, 3, 4, 5, 6, 0xFF):
-                    cases.append({"kind": "decode", "driver": "sci", "code": b0, "payload": [0, 0, e]})
-            else:
-                cases.append({"kind": "decode", "driver": "sci", "code": b0, "payload": [0, 0, 0]})
-                cases.append({"kind": "decode", "driver": "sci", "code": b0, "payload": [1, 2, 3]})
+        cases = _decode_codes("sci", res)
     elif part == "decode-small":
         for code in range(256):
             for p in (range(256) if code == 1 else (0, 0x5A, 0xFF)):
@@ -1487,6 +1677,51 @@ def _misc_shard(arg):
             cases.append({"kind": "observe", "bits": 16, "value": v, "origin": 0x12})
         for v in (0xC13001, 0xC13155, 0xC132FF, 0xFFFE36, 0x01FE36, 0xC10000, 0xC10600, 0x000001, 0xFE0455):
             cases.append({"kind": "observe", "bits": 24, "value": v})
+        # sequences: a command that needs a repeat / an answer, and directly behind it another forward frame (no
+        # timer involved): every forward frame is reported, the repeated configuration command once
+        configs = [(16, 0xFF20), (16, 0x0381), (16, 0xA500), (24, 0xFFFE10), (24, 0x03FE14)]
+        queries = [(16, 0x03A0), (16, 0xFF90), (24, 0x03FE30)]
+        plain = [(16, 0xFE80), (16, 0xFF00), (16, 0x0305), (24, 0xC13001), (24, 0xC10000)]
+        for grp, tw, rsp in ((configs, True, False), (queries, False, True), (plain, False, False)):
+            for bits, v in grp:
+                c = make_cmd(bits, v, 0)
+                if bool(c.sendtwice) != tw or (c.response is not None) != rsp:
+                    raise ValueError("frame %#x is not what the sequence generator takes it for" % v)
+        for i, a in enumerate(configs):
+            for j, b in enumerate(plain):
+                a2 = configs[(i + 1 + j % (len(configs) - 1)) % len(configs)]     # another configuration command
+                cases.append({"kind": "observe-seq", "packets": [a, b], "expect": [a, b]})
+                cases.append({"kind": "observe-seq", "packets": [a, a, b], "expect": [a, b]})
+                cases.append({"kind": "observe-seq", "packets": [a, a2, b], "expect": [a, a2, b]})
+                cases.append({"kind": "observe-seq", "packets": [a, a2, a2, b], "expect": [a, a2, b]})
+        for i, a in enumerate(queries):
+            for j, b in enumerate(plain):
+                cases.append({"kind": "observe-seq", "packets": [a, b], "expect": [a, b]})
+                cases.append({"kind": "observe-seq", "packets": [a, ("backward", 0x5A), b], "expect": [a, b]})
+                cases.append({"kind": "observe-seq", "packets": [a, configs[(i + j) % len(configs)], b],
+                              "expect": [a, configs[(i + j) % len(configs)], b]})
+    if part.startswith("decode-hist-"):
+        # every status/type code once more, decoded after left-over packets of every kind
+        driver, k0, nk = part.split("-")[2], int(part.split("-")[3]), int(part.split("-")[4])
+        base = _decode_codes(driver, res)
+        lo = leftovers(driver)
+        for k, c in enumerate(base):
+            if k % nk != k0:
+                continue
+            j = k + seed
+            cases.append(dict(c, kind="decode-hist", left=lo[j % len(lo)][0], earlier=EARLIER[(j // len(lo)) % len(EARLIER)],
+                              lat=[(j * 5 + 3 * i) % 8 for i in range(4)]))
+        # every kind of left-over x every earlier exchange, in front of an answered and an unanswered query
+        if k0 == 0:
+            for i, (name, _b) in enumerate(lo):
+                for e, earlier in enumerate(EARLIER):
+                    for u in (0, 1):
+                        if driver == "luba":
+                            code, pl = ((2 << 6) | 8, [0x33 + i]) if u == 0 else ((2 << 6) | 63, [])
+                        else:
+                            code, pl = (0x02, [0, 0, 0x33 + i]) if u == 0 else (0x01, [0, 0, 0])
+                        cases.append({"kind": "decode-hist", "driver": driver, "code": code, "payload": pl, "left": name,
+                                      "earlier": earlier, "lat": [(seed + i + e + 4 * u) % 8, 7, (i + seed) % 8, 7 - e]})
     if part in ("decode-luba", "decode-sci"):
         # the same reports once more, each behind a packet with a damaged checksum
         flips = (0x01, 0x80, 0xFF, 0x59)
@@ -1499,6 +1734,10 @@ def _misc_shard(arg):
             extra.append(dict(case, damaged=flips[(k + seed) % 4]))
         cases += extra
     for case in cases:
+        if case["kind"] == "observe-seq":
+            case["driver"] = "tridonic-hid"
+            case["packets"] = [list(x) for x in case["packets"]]
+            case["expect"] = [list(x) for x in case["expect"]]
         if case["kind"] == "observe":
             case["driver"] = "tridonic-hid"
             cmd = make_cmd(case["bits"], case["value"], 0)
@@ -1529,6 +1768,7 @@ def run(ctx):
     ctx.pmap(_enc_shard, shards)
     parts = ["length", "seq", "seqmix", "sendlevel", "decode-tridonic", "decode-legacy-tridonic", "decode-hasseb", "decode-luba",
              "decode-sci", "decode-small", "observe", "unipi-bus"]
+    parts += ["decode-hist-%s-%d-4" % (d, k) for d in ("luba", "sci") for k in range(4)]
     ctx.pmap(_misc_shard, [(p, ctx.seed, quick) for p in parts])
     res = ctx.result
     env = _env()
